@@ -471,19 +471,23 @@ def run(ck, prog, tier):
                       'a path raises %s' % o.value, fn.loc(), key='calculate_lm::raises')
                 continue
             st = o.state
-            # position of the precision store in the path = end of the validity prologue
-            cut = None
-            for nt, pos in zip(st.notes, st.notepos):
-                if (nt[0] == 'ext-store' and nt[1].startswith('mpmath.mp.')) or nt[0] == 'mp-op':
-                    cut = pos
-                    break
+            # the validity prologue = the leading tests on the signs of steps, rate and accel; an
+            # early return is a path that hands back three constants
+            is_early = isinstance(o.value, Tup) and len(o.value.items) == 3 and all(
+                isinstance(x, Sym) and x.is_const() for x in o.value.items)
             conds = []
-            for c, t in st.path[:cut] if cut is not None else st.path:
+            cut = 0
+            for c, t in st.path:
                 nc = motion.norm_path_cond(c, t)
                 if nc is None:
-                    raise AnalysisError('calculate_lm: non-numeric condition in the prologue: %r'
-                                        % (c,))
+                    if is_early:
+                        raise AnalysisError('calculate_lm: non-numeric condition in the prologue: '
+                                            '%r' % (c,))
+                    break
+                if not is_early and motion.identify(nc[0], base_q, []) is None:
+                    break
                 conds.append(nc)
+                cut += 1
             try:
                 allowed = motion.sign_cases_of_path(conds, base_q)
             except KeyError as exc:
@@ -491,7 +495,10 @@ def run(ck, prog, tier):
                       'the validity prologue tests %r, not the sign of steps, rate or accel'
                       % (exc.args[0],), fn.loc(), key='calculate_lm::prologue')
                 continue
-            if cut is None:
+            if not is_early:
+                # (kept for the rules below: everything from here on is the computation)
+                pass
+            if is_early:
                 # early return
                 early_union |= allowed
                 ok = o.value == ZERO3
